@@ -171,6 +171,7 @@ def fanout(ctx, ncases):
     import dask
     rng = ctx.rng
     for e in R.REGISTRY:
+        prev = None       # (case, request, result) of the previous case of this function
         for ci in range(ncases):
             case = R.gen_case(rng, e, with_weights=e.weights and rng.random() < 0.5, nan_p=(0.1 if ci % 2 else 0.0))
             data = sorted(set(case.fcst_dims) | set(case.obs_dims))
@@ -185,6 +186,33 @@ def fanout(ctx, ncases):
                 ctx.fail("variants", "property", e.name, "exception:" + core.exc_class(ex), desc, observed=str(ex)[:200], expected="a result",
                          tags={"function": e.name, "variant": "original"})
                 continue
+            # history independence: a call is a function of ITS arguments — after other calls of the same function (other
+            # data, other options) the earlier call, repeated on the same objects, returns the same values
+            if prev is not None:
+                again, ex2 = c01.safe_call(e, prev[0], prev[1])
+                ctx.case("variants", {"function": e.name, "variant": "repeat-after-other-calls", "case": core.case_hash(R.describe(prev[0], prev[1]))})
+                ctx.tag("variant:repeat-after-other-calls")
+                d0 = dict(R.describe(prev[0], prev[1]), function=e.name, variant="repeat-after-other-calls")
+                if ex2 is not None:
+                    ctx.fail("variants", "property", e.name, "exception:" + core.exc_class(ex2), d0, observed=str(ex2)[:200],
+                             expected="the first call's result", tags={"function": e.name, "variant": "repeat-after-other-calls"})
+                else:
+                    compare(ctx, e, prev[0], prev[1], prev[2], "repeat-after-other-calls", again, None, d0)
+            prev = (case, req, base)
+            if ncases == 1:
+                # quick tier (one case per function): make the "other call" here — another data set, another request —
+                # and repeat the first call on the same objects
+                other = R.gen_case(rng, e, with_weights=e.weights and rng.random() < 0.5)
+                c01.safe_call(e, other, {"preserve_dims": "all"} if req != {"preserve_dims": "all"} else {})
+                again, ex2 = c01.safe_call(e, case, req)
+                ctx.case("variants", {"function": e.name, "variant": "repeat-after-other-calls", "case": core.case_hash(desc)})
+                ctx.tag("variant:repeat-after-other-calls")
+                d0 = dict(desc, variant="repeat-after-other-calls")
+                if ex2 is not None:
+                    ctx.fail("variants", "property", e.name, "exception:" + core.exc_class(ex2), d0, observed=str(ex2)[:200],
+                             expected="the first call's result", tags={"function": e.name, "variant": "repeat-after-other-calls"})
+                else:
+                    compare(ctx, e, case, req, base, "repeat-after-other-calls", again, None, d0)
             variants = transpose_variants(rng, case.arrays, case.weights, ctx.n(2, 4))
             variants.append(shuffle_coords(rng, e, case.arrays, case.weights))
             if e.name not in NO_DASK:
